@@ -22,7 +22,7 @@ pub struct Event {
 }
 
 /// sites belonging to Worker::run in program order
-pub const RUN_SITES: [u32; 7] = [site::RUN_START, site::RUN_AFTER_RESET, site::RUN_AFTER_SCAN, site::RUN_AFTER_SORT, site::RUN_BEFORE_NOTIFY_READ, site::RUN_AFTER_NOTIFY, site::RUN_END];
+pub const RUN_SITES: [u32; 8] = [site::RUN_START, site::RUN_AFTER_RESET, site::RUN_AFTER_SCAN, site::RUN_AFTER_SORT, site::RUN_BEFORE_NOTIFY_READ, site::RUN_AFTER_NOTIFY, site::RUN_END, site::RUN_JOB_DONE];
 
 /// pseudo sites logged by the harness itself
 pub mod hsite {
@@ -65,6 +65,9 @@ pub struct State {
     pub score_parked: bool,
     /// a tick is waiting for the blocking lock: nothing may park (the hold stays armed for later runs)
     pub no_park: bool,
+    /// ... including finished jobs held at RUN_JOB_DONE (they do not own the lock, so they stay parked
+    /// unless a queued job that owns the lock guard waits for their pool thread)
+    pub no_park_job_done: bool,
 }
 
 pub struct Ctl {
@@ -145,11 +148,12 @@ pub fn hook(s: u32, arg: u64) {
             if s == site::RUN_START {
                 st.runs_started += 1;
             }
-            if st.run_hold == s && !st.no_park {
+            let free = |st: &State| st.no_park && (s != site::RUN_JOB_DONE || st.no_park_job_done);
+            if st.run_hold == s && !free(&st) {
                 st.run_parked = s;
                 c.cv.notify_all();
                 let t0 = Instant::now();
-                while st.run_hold == s && !st.no_park && !c.abandon.load(Ordering::Relaxed) {
+                while st.run_hold == s && !free(&st) && !c.abandon.load(Ordering::Relaxed) {
                     c.cv.wait_for(&mut st, Duration::from_millis(50));
                     if t0.elapsed() > Duration::from_secs(120) {
                         break;
@@ -201,12 +205,19 @@ pub fn hook(s: u32, arg: u64) {
             log_event(s, arg);
             // never block a tick that is about to take the blocking lock while a run is parked
             if s == site::TICK_BEFORE_BLOCKING_LOCK {
-                c.st.lock().no_park = true;
+                {
+                    let mut st = c.st.lock();
+                    st.no_park = true;
+                    // a job that was spawned but has not started owns the lock guard: its pool thread must come free
+                    st.no_park_job_done = st.spawned > st.runs_started;
+                }
                 c.cv.notify_all();
                 release_score();
             }
             if s == site::TICK_LOCKED {
-                c.st.lock().no_park = false;
+                let mut st = c.st.lock();
+                st.no_park = false;
+                st.no_park_job_done = false;
             }
             if s == site::TICK_AFTER_SPAWN {
                 c.st.lock().spawned += 1;
@@ -249,6 +260,9 @@ pub fn hook(s: u32, arg: u64) {
     }
 }
 
+/// the property a worker-thread panic is reported under (C06 unless the running check claims it)
+pub static PANIC_OWNER: Mutex<&'static str> = Mutex::new("C06");
+
 /// a panic on a library worker thread would abort the process (rayon): report it as a verdict
 pub fn install_worker_panic_hook() {
     static ONCE: std::sync::Once = std::sync::Once::new();
@@ -259,7 +273,8 @@ pub fn install_worker_panic_hook() {
             if on_worker {
                 let loc = info.location().map(|l| format!("{}:{}", l.file(), l.line())).unwrap_or_default();
                 let msg = info.payload().downcast_ref::<&str>().map(|s| s.to_string()).or_else(|| info.payload().downcast_ref::<String>().cloned()).unwrap_or_else(|| "panic".into());
-                vcommon::driver::fatal_verdict("C06", &format!("worker-panic:{loc}"), &format!("a library worker thread panicked: {msg} at {loc}"));
+                let owner = *PANIC_OWNER.lock();
+                vcommon::driver::fatal_verdict(owner, &format!("worker-panic:{loc}"), &format!("a library worker thread panicked: {msg} at {loc}"));
             }
             prev(info)
         }));
@@ -269,6 +284,7 @@ pub fn install_worker_panic_hook() {
 /// reset the controller for a new case and install the hook
 pub fn reset() {
     install_worker_panic_hook();
+    *PANIC_OWNER.lock() = "C06";
     let c = ctl();
     c.abandon.store(false, Ordering::Relaxed);
     *c.st.lock() = State::default();
@@ -303,13 +319,18 @@ pub fn begin_blocking() {
     {
         let mut st = c.st.lock();
         st.no_park = true;
+        st.no_park_job_done = st.spawned > st.runs_started;
         st.score_hold = None;
     }
     c.cv.notify_all();
 }
 pub fn end_blocking() {
     let c = ctl();
-    c.st.lock().no_park = false;
+    {
+        let mut st = c.st.lock();
+        st.no_park = false;
+        st.no_park_job_done = false;
+    }
     c.cv.notify_all();
 }
 pub fn release_score() {
@@ -379,7 +400,8 @@ pub fn wait_runs_idle() -> Waited {
             if st.runs_ended >= st.runs_started.max(st.spawned) {
                 break;
             }
-            if st.score_parked || st.run_parked != 0 {
+            // a mark left by a thread that is about to leave a hold that was lifted meanwhile does not count
+            if st.score_parked || (st.run_parked != 0 && st.run_parked == st.run_hold) {
                 return Waited::Parked;
             }
             if t0.elapsed() > WAIT_LIMIT {
